@@ -1823,3 +1823,29 @@ func mainmwFilterSteps(c *an.Ctx, rule string) {
 		},
 	})
 }
+
+// sharedPoolInitSweep runs the pooled-object re-initialisation rule for every
+// function that takes an object of one of the named struct types from a pool.
+func sharedPoolInitSweep(c *an.Ctx, rule string, typeNames ...string) (sites int) {
+	want := map[string]bool{}
+	for _, t := range typeNames {
+		want[t] = true
+	}
+	var keys []string
+	for _, fn := range c.AllFns {
+		if fn.Blocks == nil || c.IsTestFile(fn.Pos()) {
+			continue
+		}
+		for _, call := range an.Calls(fn) {
+			if n, _ := poolGetStruct(call); n != nil && want[an.TypeName(n)] {
+				keys = append(keys, an.FnKey(fn))
+				break
+			}
+		}
+	}
+	sort.Strings(keys)
+	if len(keys) > 0 {
+		sharedPoolInit(c, rule, keys...)
+	}
+	return len(keys)
+}
